@@ -447,12 +447,11 @@ func checkC19(c *Ctx, r *Report) {
 			if fn == s.addEvent {
 				idOK := false
 				for _, g := range blockGuards(rm.store.Block()) {
-					g = normGuard(g)
-					bo, ok := g.cond.(*ssa.BinOp)
-					if !ok || bo.Op != token.EQL || !g.val {
+					x, y, ok := eqGuard(g)
+					if !ok {
 						continue
 					}
-					if c.isNamed(bo.X.Type(), "Subscription") && (elemAt(bo.X, rm.idx) || elemAt(bo.Y, rm.idx)) {
+					if c.isNamed(x.Type(), "Subscription") && (elemAt(x, rm.idx) || elemAt(y, rm.idx)) {
 						idOK = true
 					}
 				}
@@ -571,7 +570,23 @@ func c19Register(c *Ctx, r *Report, s subFns) {
 		args []ssa.Value
 	}
 	var sites []regSite
-	if c.hasParam(s.subscribe, "Subscription") {
+	// a registration function: its call sites are the registrations - it takes the subscription, or the value that
+	// may be one (and tests it itself)
+	takesValue := false
+	if !c.hasParam(s.subscribe, "Subscription") {
+		for _, ra := range registryAppends(c, s.subscribe) {
+			v := ra.val
+			if ex, ok := v.(*ssa.Extract); ok {
+				v = ex.Tuple
+			}
+			if ta, ok := v.(*ssa.TypeAssert); ok {
+				if _, isP := ta.X.(*ssa.Parameter); isP {
+					takesValue = true
+				}
+			}
+		}
+	}
+	if c.hasParam(s.subscribe, "Subscription") || takesValue {
 		for _, fn := range c.allFns {
 			if !c.inPkg(fn) {
 				continue
@@ -594,7 +609,7 @@ func c19Register(c *Ctx, r *Report, s subFns) {
 		ok := false
 		src := ""
 		for _, arg := range site.args {
-			if !c.isNamed(arg.Type(), "Subscription") {
+			if !c.isNamed(arg.Type(), "Subscription") && !(takesValue && isEmptyIface(arg.Type())) {
 				continue
 			}
 			v := arg
@@ -687,12 +702,11 @@ func elemAt(v ssa.Value, idx ssa.Value) bool {
 // identicalToElem: block b is guarded by base == root.subscriptions[idx].
 func identicalToElem(b *ssa.BasicBlock, base ssa.Value, idx ssa.Value) bool {
 	for _, g := range blockGuards(b) {
-		g = normGuard(g)
-		bo, ok := g.cond.(*ssa.BinOp)
-		if !ok || bo.Op != token.EQL || !g.val {
+		x, y, ok := eqGuard(g)
+		if !ok {
 			continue
 		}
-		if (sameVal(bo.X, base) && elemAt(bo.Y, idx)) || (sameVal(bo.Y, base) && elemAt(bo.X, idx)) {
+		if (sameVal(x, base) && elemAt(y, idx)) || (sameVal(y, base) && elemAt(x, idx)) {
 			return true
 		}
 	}
@@ -1023,13 +1037,12 @@ func checkC20(c *Ctx, r *Report) {
 		}
 		idOK := false
 		for _, g := range blockGuards(rm.store.Block()) {
-			g = normGuard(g)
-			bo, ok := g.cond.(*ssa.BinOp)
-			if ok && bo.Op == token.EQL && g.val && (elemAt(bo.X, rm.idx) || elemAt(bo.Y, rm.idx)) {
+			ex, ey, ok := eqGuard(g)
+			if ok && (elemAt(ex, rm.idx) || elemAt(ey, rm.idx)) {
 				// the compared registry element is loaded inside the same critical section
-				var ld ssa.Value = bo.X
-				if elemAt(bo.Y, rm.idx) {
-					ld = bo.Y
+				var ld ssa.Value = ex
+				if elemAt(ey, rm.idx) {
+					ld = ey
 				}
 				if in, ok := ld.(ssa.Instruction); ok {
 					for _, lr := range st.heldAt[in] {
